@@ -4,7 +4,7 @@ property (every task exactly once, non-decreasing start time); TLC enumerates ev
 shared ancestors, ties and zero times and exports them as audit trees; the real CLI (audit2html / audit2tex / audit2bash,
 built from /repo) converts each tree and the listings are parsed back. Generated Bash scripts of real runs are executed in
 a directory holding only the source files and the re-created file is compared byte by byte."""
-import random, json, os, re, subprocess, shutil
+import random, json, os, re, subprocess, shutil, time
 from vlib import *
 import zoo, flowcheck as fc
 from . import register
@@ -117,13 +117,24 @@ def check_C20(tier):
                         chk.violation("audit2%s lost parameters / tags of task %s" % (fmt, t["ProcessName"]), replay); break
     # ---- Bash re-creation from real runs ------------------------------------------------------
     build("wfdriver")
-    def recreate(inst, label):
+    def recreate(inst, label, remove_then_rerun=None):
+        """remove_then_rerun: files (and their audit files) deleted after a first complete run, then the workflow is run again:
+        the records converted are those of a resumed run"""
         d = scratch("c20w"); d2 = scratch("c20r")
         try:
             prepare_dir(inst, d)
             rr = run_real(inst, d, timeout=60)
             if rr.rc != 0 or not rr.completed:
                 chk.undecided.append("workflow for bash re-creation failed: %s" % rr.stderr[-200:]); return
+            if remove_then_rerun:
+                time.sleep(0.05)
+                for f in remove_then_rerun:
+                    for suf in ("", ".audit.json"):
+                        try: os.remove(os.path.join(d, f + suf))
+                        except FileNotFoundError: pass
+                rr = run_real(inst, d, timeout=60)
+                if rr.rc != 0 or not rr.completed:
+                    chk.undecided.append("re-run for bash re-creation failed: %s" % rr.stderr[-200:]); return
             outs = [p for p in rr.snapshot if p.endswith(".txt") and p + ".audit.json" in rr.snapshot and "/" not in p]
             for target in sorted(outs):
                 chk.evaluations += 1
@@ -210,6 +221,13 @@ def check_C20(tier):
                      zoo.E("left.out", "lateleft.x"), zoo.E("right.out", "lateright.x")],
               ctl={"lateleft.sleep": "0.6", "lateright.sleep": "0.6"})
     recreate(w7, "diamond with late side consumers of the intermediate files")
+    # records loaded from a resumed run: the first and the last file of a chain are removed (with their audit files) and produced again,
+    # the file in the middle is kept
+    w8 = dict(name="RC8", max=1, bufsize=2,
+              procs=[zoo.src("s", ["1"]), dict(name="a", kind="cmd", ins=["in"], outs=["out"], outdir="./"), dict(name="b", kind="cmd", ins=["x"], outs=["out"], outdir="./"),
+                     dict(name="c", kind="cmd", ins=["x"], outs=["out"], outdir="./")],
+              edges=[zoo.E("s.out", "a.in"), zoo.E("a.out", "b.x"), zoo.E("b.out", "c.x")])
+    recreate(w8, "chain resumed after its first and last file were removed", remove_then_rerun=["a.out_1.txt", "c.out_b.out_a.out_1.txt"])
     recreate(w4, "pipeline with a failing first stage, ';' list with a failing command, unset variable")
     chk.sample(dict(kind="audit-trees", exported_by_tlc=len(cases), converted=len(pick), example=pick[0]["tree"] if pick else None))
     return chk.finish()
